@@ -1394,10 +1394,11 @@ class Assembler:
 
     def _assemble_out(self, address, op1, op2):
         if op1 == '(C)':
-            if op2 == '0':
+            if op2 in REG:
+                if op2 != '(HL)':
+                    return (237, 65 + 8 * _reg_index(op2))
+            elif self.parse_byte(op2) == 0:
                 return (237, 113)
-            if op2 != '(HL)':
-                return (237, 65 + 8 * _reg_index(op2))
         elif op2 == 'A':
             return (211, self.parse_byte(op1, brackets=True, non_neg=True))
 
